@@ -1202,6 +1202,13 @@ class Context:
 
         plugins = self._get_plugins(targets, run_id, chunk_number=chunk_number)
 
+        # Data types merged on the fly by a temporary plugin are targets in their own right
+        final_targets = tuple(
+            d
+            for t in targets
+            for d in (plugins[t].depends_on if t.startswith(TEMP_DATA_TYPE_PREFIX) else (t,))
+        )
+
         allow_superruns = [plugins[target_i].allow_superrun for target_i in targets]
         if is_superrun and sum(allow_superruns) not in [0, len(targets)]:
             raise ValueError(
@@ -1354,7 +1361,7 @@ class Context:
 
             # Now we should check whether we meet the saving requirements.
             current_plugin_to_savers = [target_i]
-            if not self._target_should_be_saved(target_plugin, target_i, targets, save):
+            if not self._target_should_be_saved(target_plugin, target_i, final_targets, save):
                 if target_plugin.multi_output:
                     # In case the plugin has more than a single provides we also have to check
                     # whether any of the other data_types should be stored. Hence only remove
@@ -1402,7 +1409,7 @@ class Context:
                     continue
 
                 if not self._target_should_be_saved(
-                    target_plugin, d_to_save, targets, save
+                    target_plugin, d_to_save, final_targets, save
                 ) or savers.get(d_to_save):
                     # This multi-output plugin was scanned before
                     # let's not create doubled savers or store data_types we do not want to.
